@@ -4,7 +4,7 @@ import itertools, json, os
 import vlib
 from vlib import hexs
 
-REQUIRED = ['terminates_full', 'no_fault_full', 'wrap_header_no_fault', 'is_multipart_no_fault', 'getfieldlen_no_fault', 'send_plain_no_fault', 'recode_qp_no_fault', 'need_recode_sound', 'legal_data_plain',
+REQUIRED = ['terminates_full', 'no_fault_full', 'recode_qp_legal', 'wrap_header_no_fault', 'is_multipart_no_fault', 'getfieldlen_no_fault', 'send_plain_no_fault', 'recode_qp_no_fault', 'need_recode_sound', 'legal_data_plain',
             'terminates_partial', 'no_fault_partial', 'legal_data_partial']
 
 ASSUMPTIONS = [
